@@ -6,6 +6,7 @@
   src/uint/{add_mod,sub_mod,neg_mod,mul_mod}.rs, src/modular/div_by_2.rs and the boxed twins.
 -/
 import CB.Lemmas.C07Boxed
+import CB.Lemmas.C07Old
 namespace CB.P07
 open CB CB.ModArith
 
@@ -238,22 +239,17 @@ theorem neg_mod_special_spec {a : List Nat} {c : Nat} (ha : WF a)
 
   The product `split_mul` (fixed) / `BoxedUint::mul` (boxed) is used at value level: exactness of
   multiplication is property C03.  The one-limb path `mul_rem(a, b, 0 - c)` is used at value level:
-  exactness of the limb remainder is property C02. -/
+  exactness of the limb remainder is property C02.
 
-/-
-  FULL STATEMENT (unproved, and FALSE for the code as written — see `mul_mod_special_wrong_at_max`):
-    ∀ a b c, WF a → WF b → a.length = b.length → 1 ≤ c → c < B →
-      val a < B ^ a.length - c → val b < B ^ a.length - c →
-      val (mulModSpecial a b c) = (val a * val b) % (B ^ a.length - c)
-  What the proof forces is exactly `carry + 1 < 2^64` at src/uint/mul_mod.rs:62
-  (`mulModSpecialOverflows a b c = false`); it follows from `c < MAX` or `LIMBS ≤ 2`.
--/
+  History: until /repo commit a301fd3 the code computed `(carry.0 + 1)` in the limb type; that
+  formula is wrong at `c = MAX` with ≥ 3 limbs (CB/Lemmas/C07Old.lean keeps the proved negative
+  `old_formula_mul_mod_special_wrong_at_max`).  The theorems below are about the code as it is now. -/
 
-/-- T07.3a the exact side condition: whenever `carry.0 + 1` does not overflow, the result is the
-    canonical residue — for ALL operands of the width, reduced or not. -/
-theorem mul_mod_special_of_no_overflow {a b : List Nat} {c : Nat} (ha : WF a) (hb : WF b)
-    (hab : a.length = b.length) (hn : 1 ≤ a.length) (hc1 : 1 ≤ c) (hc : c < B)
-    (H_carry : mulModSpecialOverflows a b c = false) :
+/-- T07.3 `mul_mod_special` returns `a·b mod p` for `p = 2^BITS - c`: every width `≥ 1`, every
+    `1 ≤ c < 2^64` (including `c = MAX`), ALL operands of the width (in particular all `a, b < p`);
+    the result is `< p`.  No side condition. -/
+theorem mul_mod_special_spec {a b : List Nat} {c : Nat} (ha : WF a) (hb : WF b)
+    (hab : a.length = b.length) (hn : 1 ≤ a.length) (hc1 : 1 ≤ c) (hc : c < B) :
     val (mulModSpecial a b c) = (val a * val b) % (B ^ a.length - c) ∧
     val (mulModSpecial a b c) < B ^ a.length - c ∧
     WF (mulModSpecial a b c) ∧ (mulModSpecial a b c).length = a.length := by
@@ -275,99 +271,25 @@ theorem mul_mod_special_of_no_overflow {a b : List Nat} {c : Nat} (ha : WF a) (h
         specialReduce (toLimbs a.length (val a * val b))
           (toLimbs a.length (val a * val b / B ^ a.length)) c := by
       unfold mulModSpecial; rw [if_neg h1]
-    have hov : (macByLimb (toLimbs a.length (val a * val b))
-        (toLimbs a.length (val a * val b / B ^ a.length)) c 0).2 + 1 < B := by
-      have hq := (macByLimb_spec (toLimbs_WF a.length (val a * val b))
-        (toLimbs_WF a.length (val a * val b / B ^ a.length))
-        (by rw [toLimbs_length, toLimbs_length]) hc (show 0 < B by decide)).2.1
-      unfold mulModSpecialOverflows at H_carry
-      rw [if_neg h1] at H_carry
-      simp only [beq_eq_false_iff_ne, ne_eq] at H_carry
-      omega
     have ⟨r1, r2, r3⟩ := specialReduce_spec (toLimbs_WF a.length (val a * val b))
       (toLimbs_WF a.length (val a * val b / B ^ a.length))
-      (by rw [toLimbs_length, toLimbs_length]) (by rw [toLimbs_length]; exact hn2) hc1 hc hov
+      (by rw [toLimbs_length, toLimbs_length]) (by rw [toLimbs_length]; exact hn2) hc1 hc
     rw [toLimbs_length] at r1 r3
     rw [split_product ha hb hab] at r1
     rw [hd]
     exact ⟨r1, by rw [r1]; exact Nat.mod_lt _ hpos, r2, r3⟩
 
-/-- T07.3b `mul_mod_special` returns `a·b mod p` for `p = 2^BITS - c` whenever `c < Limb::MAX`
-    or the width is at most two limbs.  (`_partial`: the region `c = MAX ∧ LIMBS ≥ 3` is excluded;
-    there the code is wrong, see the next theorem.) -/
-theorem mul_mod_special_partial {a b : List Nat} {c : Nat} (ha : WF a) (hb : WF b)
+/-- T07.3 in the shape of the documented precondition (`a, b < p`). -/
+theorem mul_mod_special_reduced_spec {a b : List Nat} {c : Nat} (ha : WF a) (hb : WF b)
     (hab : a.length = b.length) (hc1 : 1 ≤ c) (hc : c < B)
-    (hlta : val a < B ^ a.length - c) (hltb : val b < B ^ a.length - c)
-    (H_side : c < WMAX ∨ a.length ≤ 2) :
+    (hlta : val a < B ^ a.length - c) (_hltb : val b < B ^ a.length - c) :
     val (mulModSpecial a b c) = (val a * val b) % (B ^ a.length - c) ∧
     val (mulModSpecial a b c) < B ^ a.length - c ∧
-    WF (mulModSpecial a b c) ∧ (mulModSpecial a b c).length = a.length := by
-  have hn := length_pos_of_lt_special hc1 hlta
-  apply mul_mod_special_of_no_overflow ha hb hab hn hc1 hc
-  unfold mulModSpecialOverflows
-  by_cases h1 : a.length = 1
-  · rw [if_pos h1]
-  · rw [if_neg h1]
-    simp only [beq_eq_false_iff_ne, ne_eq]
-    have hle := macByLimb_carry_le (toLimbs_WF a.length (val a * val b))
-      (toLimbs_WF a.length (val a * val b / B ^ a.length))
-      (by rw [toLimbs_length, toLimbs_length]) hc
-    rcases H_side with hcm | hn2
-    · simp only [B_def, WMAX_def] at *; omega
-    · have := no_overflow_two_limbs ha hb hab (by omega) hc hlta hltb
-      omega
+    WF (mulModSpecial a b c) ∧ (mulModSpecial a b c).length = a.length :=
+  mul_mod_special_spec ha hb hab (length_pos_of_lt_special hc1 hlta) hc1 hc
 
-/-- T07.3c NEGATIVE: with `c = Limb::MAX` and three limbs the function as written (release build:
-    `carry + 1` wraps) does NOT return the canonical residue.  Witness `a = b = 2^192 - 2^65 < p`:
-    the model returns `0x3_0000000000000001`, the residue is `0x1_0000000000000002_0000000000000001`;
-    the build with overflow checks panics on the same input (`mulModSpecialOverflows = true`). -/
-theorem mul_mod_special_wrong_at_max :
-    ∃ a b : List Nat, WF a ∧ WF b ∧ a.length = 3 ∧ b.length = 3 ∧
-      val a < B ^ 3 - WMAX ∧ val b < B ^ 3 - WMAX ∧
-      mulModSpecialOverflows a b WMAX = true ∧
-      val (mulModSpecial a b WMAX) = 0x30000000000000001 ∧
-      (val a * val b) % (B ^ 3 - WMAX) = 0x100000000000000020000000000000001 ∧
-      val (mulModSpecial a b WMAX) ≠ (val a * val b) % (B ^ 3 - WMAX) := by
-  refine ⟨[0, WMAX - 1, WMAX], [0, WMAX - 1, WMAX], ?_, ?_, rfl, rfl, ?_, ?_, ?_, ?_, ?_, ?_⟩
-  · unfold WF; decide
-  · unfold WF; decide
-  all_goals decide
-
-/-- T07.3d REPAIR VERIFIED: with the increment done in the wide type
-    (`(carry.0 as WideWord + 1) * c`, the patch proposed in notes/C07.md) `mul_mod_special` returns
-    `a·b mod p` for EVERY width `≥ 1`, every `1 ≤ c < 2^64` (including `c = MAX`) and all operands —
-    the full statement above, without side condition.  `mulModSpecialRepaired` is not what /repo
-    computes today; on the witness of T07.3c it returns the correct residue. -/
-theorem mul_mod_special_repaired_spec {a b : List Nat} {c : Nat} (ha : WF a) (hb : WF b)
-    (hab : a.length = b.length) (hn : 1 ≤ a.length) (hc1 : 1 ≤ c) (hc : c < B) :
-    val (mulModSpecialRepaired a b c) = (val a * val b) % (B ^ a.length - c) ∧
-    val (mulModSpecialRepaired a b c) < B ^ a.length - c := by
-  have hpos : 0 < B ^ a.length - c := by
-    have : B ^ 1 ≤ B ^ a.length := Nat.pow_le_pow_right B_pos hn
-    simp only [Nat.pow_one] at this; omega
-  by_cases h1 : a.length = 1
-  · match a, b, h1, hab with
-    | [x], [y], _, _ =>
-      have hd : mulModSpecialRepaired [x] [y] c = [(x * y) % (wsub 0 c)] := rfl
-      have hmod : x * y % (B - c) < B - c := Nat.mod_lt _ (by omega)
-      rw [hd, wsub_zero hc1 hc]
-      simp only [val_cons, val_nil, Nat.mul_zero, Nat.add_zero, List.length_cons, List.length_nil,
-        Nat.zero_add, Nat.pow_one]
-      exact ⟨trivial, hmod⟩
-  · have hn2 : 2 ≤ a.length := by omega
-    have hd : mulModSpecialRepaired a b c =
-        specialReduceRepaired (toLimbs a.length (val a * val b))
-          (toLimbs a.length (val a * val b / B ^ a.length)) c := by
-      unfold mulModSpecialRepaired; rw [if_neg h1]
-    have ⟨r1, _, _⟩ := specialReduceRepaired_spec (toLimbs_WF a.length (val a * val b))
-      (toLimbs_WF a.length (val a * val b / B ^ a.length))
-      (by rw [toLimbs_length, toLimbs_length]) (by rw [toLimbs_length]; exact hn2) hc1 hc
-    rw [toLimbs_length] at r1
-    rw [split_product ha hb hab] at r1
-    rw [hd]
-    exact ⟨r1, by rw [r1]; exact Nat.mod_lt _ hpos⟩
-
-example : val (mulModSpecialRepaired [0, WMAX - 1, WMAX] [0, WMAX - 1, WMAX] WMAX)
+/-- the former failing input (`c = MAX`, three limbs, `a = b = 2^192 - 2^65`) now gives the residue -/
+example : val (mulModSpecial [0, WMAX - 1, WMAX] [0, WMAX - 1, WMAX] WMAX)
     = 0x100000000000000020000000000000001 := by decide
 
 /-! ## T07.4 `div_by_2` (halving modulo an odd modulus) -/
@@ -537,23 +459,17 @@ theorem boxed_neg_mod_special_spec {a : List Nat} {c : Nat} (ha : WF a)
   rw [bNegModSpecial_eq a c (length_pos_of_lt_special hc1 hlta)]
   exact neg_mod_special_spec ha hc1 hc hlta
 
-/-- boxed `mul_mod_special`: same partial theorem, same excluded region. -/
-theorem boxed_mul_mod_special_partial {a b : List Nat} {c : Nat} (ha : WF a) (hb : WF b)
-    (hab : a.length = b.length) (hc1 : 1 ≤ c) (hc : c < B)
-    (hlta : val a < B ^ a.length - c) (hltb : val b < B ^ a.length - c)
-    (H_side : c < WMAX ∨ a.length ≤ 2) :
+/-- boxed `mul_mod_special`: same full statement (precisions equal). -/
+theorem boxed_mul_mod_special_spec {a b : List Nat} {c : Nat} (ha : WF a) (hb : WF b)
+    (hab : a.length = b.length) (hn : 1 ≤ a.length) (hc1 : 1 ≤ c) (hc : c < B) :
     val (bMulModSpecial a b c) = (val a * val b) % (B ^ a.length - c) ∧
     val (bMulModSpecial a b c) < B ^ a.length - c ∧
     WF (bMulModSpecial a b c) ∧ (bMulModSpecial a b c).length = a.length := by
-  rw [bMulModSpecial_eq c hab hc (length_pos_of_lt_special hc1 hlta)]
-  exact mul_mod_special_partial ha hb hab hc1 hc hlta hltb H_side
+  rw [bMulModSpecial_eq c hab hc hn]
+  exact mul_mod_special_spec ha hb hab hn hc1 hc
 
-/-- boxed twin of the negative theorem: identical wrong residue at `c = MAX`, three limbs. -/
-theorem boxed_mul_mod_special_wrong_at_max :
-    val (bMulModSpecial [0, WMAX - 1, WMAX] [0, WMAX - 1, WMAX] WMAX) = 0x30000000000000001 ∧
-    (val [0, WMAX - 1, WMAX] * val [0, WMAX - 1, WMAX]) % (B ^ 3 - WMAX)
-      = 0x100000000000000020000000000000001 := by
-  constructor <;> decide
+example : val (bMulModSpecial [0, WMAX - 1, WMAX] [0, WMAX - 1, WMAX] WMAX)
+    = 0x100000000000000020000000000000001 := by decide
 
 /-! ## non-vacuity: the hypotheses are met by concrete non-trivial operands -/
 
